@@ -17,7 +17,32 @@ GEN_COMPACT = dict(module="Gen_Compact", cfg="Gen_Compact.cfg", cfg_thorough="Ge
 MC_APPEND = dict(module="MC_Append", cfg="MC_Append.cfg", workers=4)
 MC_CONTAINERS = dict(module="MC_Containers", cfg="MC_Containers.cfg", cfg_thorough="MC_Containers_thorough.cfg", workers=6)
 
+MC_LEDGER = dict(module="MC_Ledger", cfg="MC_Ledger.cfg", cfg_thorough="MC_Ledger_thorough.cfg", workers=4)
+GEN_LEDGER = dict(module="Gen_Ledger", cfg="Gen_Ledger.cfg")
+
+MC_DERIVE = dict(module="MC_Derive", cfg="MC_Derive.cfg", cfg_thorough="MC_Derive_thorough.cfg", workers=8)
+GEN_DERIVE = dict(module="Gen_Derive", cfg="Gen_Derive.cfg", cfg_thorough="Gen_Derive_thorough.cfg")
+
 PROPS = {
+    "C05": dict(level="model_checking", mc=[MC_DERIVE],
+        pre=[dict(kind="gen_vectors", mc=GEN_DERIVE, out="dlayout.ndjson", env={"WHAT": "layout"}),
+             dict(kind="custom", fn="gen_rust_types", vectors="dlayout.ndjson", count=dict(quick=120, thorough=600))],
+        steps=[trace(1, 3), dict(kind="custom", fn="restore_generated")],
+        rule="type definitions enumerated by TLC over the bounded attribute grammar (shape x field attributes x index sources x skip), sampled by seed, "
+             "compiled into the harness; records as for C01/C02/C03 on values of those types plus values in skipped variants; non-trivial = at least one byte"),
+    "C17": dict(level="model_checking", mc=[MC_DERIVE],
+        pre=[dict(kind="gen_vectors", mc=GEN_DERIVE, out="dreject.ndjson", env={"WHAT": "reject"})],
+        steps=[dict(kind="custom", fn="derive_reject", vectors="dreject.ndjson", count=dict(quick=110, thorough=2500))],
+        rule="enum definitions over {index attribute, explicit discriminant, implicit position, skip} with indices in {0,1,2,255,256,300}, enumerated by TLC, "
+             "sampled by seed, each invalid one paired with a minimally different valid twin, plus the finite attribute-conflict / union / CompactAs / 256-vs-257 cases; "
+             "each program is its own compilation target; distinct by definition"),
+    "C09": dict(level="model_checking", mc=[MC_FORMAT], steps=[trace(1, 3)]),
+    "C10": dict(level="fault_enumeration", mc=[MC_LEDGER], steps=[
+        dict(kind="gen_vectors", mc=GEN_LEDGER, out="lvec.ndjson"),
+        trace(1, 1, tag="faults", vectors="lvec.ndjson"),
+    ], rule="every (container shape x size 0..4 x fault position x fault kind in {input exhausted, malformed element, limit error, panic}) vector "
+            "enumerated by TLC from the ledger machine, stretched to sizes 7 and 40; non-trivial = at least one element constructed or a fault injected, "
+            "distinct by (shape, size, fault position, kind)"),
     "C06": dict(level="model_checking", mc=[MC_CONTAINERS], steps=[trace(1, 8)]),
     "C07": dict(level="model_checking", mc=[MC_FORMAT], steps=[trace(1, 4)]),
     "C15": dict(level="model_checking", mc=[MC_APPEND], steps=[trace(1, 6)]),
